@@ -25,11 +25,11 @@ func init() {
 				Flavours: []string{"plain", "cover"},
 				Blocks:   32,
 				Procs:    16,
-				Rule: "case = (beta < 1000, insertion pattern, history). Patterns: ascending, descending, outward and inward zig-zag, insert-next-to-last-key (bisection), bit-reversal, random; each followed or interleaved with removals (random, half drain, drain to empty, then regrow) and Clear. " +
+				Rule: "case = (beta < 1000, insertion pattern, history). Patterns: ascending, descending, outward and inward zig-zag, insert-next-to-last-key (bisection), bit-reversal, random; long monotone runs at loose balance factors (beta 900..999) sized 30% beyond the point where a never-rebalanced chain would cross the bound (up to 30000 keys); histories continue on Clones of the tree; each followed or interleaved with removals (random, half drain, drain to empty, then regrow) and Clear. " +
 					"After EVERY operation: depth of the deepest node (full traversal through Root/Left/Right for trees <= 300 keys; for larger trees the depth of the key just inserted, via Cursor(k)+Up, plus a full traversal every 64 steps and at the end) against the real-valued bound with P tracked by the monitor; comparator calls made by Get for present and absent keys against floor(bound)+1. " +
 					"Bulk New with n distinct (and duplicated) keys: height == floor(log2 n) for every beta including 1000. beta: quick {0,1,2,50,100,250,300,500,700,750,900,999} + a rotating extra; thorough sweeps all 0..999. " +
 					"distinct = hash(beta, pattern, ops); non-trivial = at some step the deepest key was within one level of log_b(P) (depth >= bound-2; on the unchanged tree the code keeps depth <= log_b(P), one level inside the stated bound)",
-				Required:     []string{"near_limit_steps", "histories_inserting_through_replace", "steps", "get_comparison_checks", "new_height_checks", "after_remove_checks", "regrow_after_empty"},
+				Required:     []string{"near_limit_steps", "histories_inserting_through_replace", "long_monotone_runs", "clones", "steps", "get_comparison_checks", "new_height_checks", "after_remove_checks", "regrow_after_empty"},
 				Assumptions:  []string{"depth is read through stree.Cursor (Root/Left/Right/Up), which C03 checks separately", "the bound is evaluated in float64 with an epsilon of 1e-9 in the code's favour"},
 				CoverPkgs:    []string{"github.com/creachadair/mds/stree"},
 				CoverAnchors: []string{"stree/stree.go:limitFunc", "stree/stree.go:toFraction", "stree/stree.go:insert", "stree/stree.go:Add", "stree/stree.go:Replace", "stree/stree.go:Remove", "stree/stree.go:incSize", "stree/node.go:rewrite", "stree/node.go:vineToTree", "stree/node.go:treeToVine", "stree/node.go:rotateLeft", "stree/node.go:extract", "stree/stree.go:New"},
@@ -337,7 +337,21 @@ func runC02(c *fw.Ctx) {
 		}
 		h := &c02hist{c: c, r: r, beta: beta, keys: map[int]bool{}, h: fw.NewH(), maxIns: -1, closest: math.Inf(-1)}
 		h.h.Int(beta)
-		ok, pv, stack := fw.Try(func() { c02history(h, i) })
+		long := false
+		if (i == 1 && (c.Block < 8 || c.Thorough())) || (c.Thorough() && i%16 == 1) {
+			// one long monotone run per block at a loose balance factor
+			looseBetas := []int{999, 998, 997, 995, 990, 980, 950, 900, 999, 996, 993, 985, 970, 999, 998, 925}
+			h.beta = looseBetas[(c.Block+i/16)%len(looseBetas)]
+			beta = h.beta
+			long = true
+		}
+		ok, pv, stack := fw.Try(func() {
+			if long {
+				c02monotoneLong(h)
+			} else {
+				c02history(h, i)
+			}
+		})
 		if !ok {
 			c.FailKind("panic", map[string]any{"beta": beta, "ops": h.log.list()}, "panic: %v\n%s", pv, stack)
 		}
@@ -389,6 +403,56 @@ func runC02(c *fw.Ctx) {
 	}
 }
 
+// c02monotoneLong: for loose balance factors the bound is so generous that
+// only long monotone insertion sequences can reach it (a chain of P keys has
+// depth P-1, the bound is K*ln(P)+1 with K = 1/ln(2000/(1000+beta))). The run
+// length is chosen 30% beyond the point where a tree that never rebalanced
+// would cross the bound.
+func c02monotoneLong(h *c02hist) {
+	K := 1 / math.Log(2000.0/(1000.0+float64(h.beta)))
+	P := 2
+	for float64(P-1) <= K*math.Log(float64(P))+1 && P < 40000 {
+		P++
+	}
+	n := min(P*13/10+50, 30000)
+	h.t = stree.New(h.beta, func(a, b Elem) int { h.ncmp++; return cmpElem(a, b) })
+	h.log.add("New(beta=%d); %d ascending (or descending) inserts: an unbalanced chain would cross the bound at about %d keys", h.beta, n, P)
+	h.c.Add("long_monotone_runs", 1)
+	down := h.r.IntN(2) == 0
+	for i := 0; i < n && !h.failed; i++ {
+		k := i
+		if down {
+			k = -i
+		}
+		h.tag++
+		h.ncmp = 0
+		if !h.t.Add(Elem{Key: k, Tag: h.tag}) {
+			h.fail("Add(%d) of a new key reports false", k)
+			return
+		}
+		descent := h.ncmp // comparisons made on the way down = depth of the insertion point before any rebuild
+		h.keys[k] = true
+		h.steps++
+		h.c.Step()
+		h.c.Add("steps", 1)
+		h.P = i + 1
+		// The key just inserted is the deepest candidate of a monotone run. Its
+		// depth is at most the number of comparisons Add made while descending
+		// (a rebuild can only lift it), so the exact (and expensive) measurement
+		// is needed only when that count is not already within the bound.
+		if float64(descent) > c02bound(h.beta, h.P)-2 || i%512 == 0 {
+			d := h.depthOf(k)
+			h.checkDepth(d, fmt.Sprintf("depth of key %d just inserted (monotone run, %d keys)", k, i+1))
+		}
+		if i%2048 == 2047 {
+			h.checkDepth(h.fullDepth(), "full traversal")
+		}
+	}
+	if !h.failed {
+		h.checkDepth(h.fullDepth(), "final full traversal")
+	}
+}
+
 func c02history(h *c02hist, caseIdx int) {
 	r := h.r
 	wide := r.IntN(3) == 0
@@ -420,6 +484,12 @@ func c02history(h *c02hist, caseIdx int) {
 	// Interleave removals and further inserts.
 	rounds := 1 + r.IntN(3)
 	for round := 0; round < rounds && !h.failed; round++ {
+		if r.IntN(3) == 0 {
+			// carry on with a Clone of the tree (P is inherited: the clone holds the same structure)
+			h.log.add("t = t.Clone()")
+			h.t = h.t.Clone()
+			h.c.Add("clones", 1)
+		}
 		ks := append([]int(nil), h.sortedKeys()...)
 		switch r.IntN(5) {
 		case 0: // remove a random half, then keep inserting with the same pattern
